@@ -19,7 +19,7 @@ LEVEL_TEXT = ('Proof: Lean theorems — for every absolute path the model of cle
 LEVEL_NOTE = 'Trusted: Lean kernel; model of std::path components; correspondence (exhaustive up to the bound); posixpath.normpath as independent reference for the call-site oracle.'
 TECHNIQUE = 'Lean 4 proof (path normaliser = reference normaliser, resolution rules) + exhaustive correspondence + call-site oracle'
 
-PC = ['a', 'b', '.', '..', '', '%h', '%%', '%abc', 'c.d']
+PC = ['a', 'b', '.', '..', '', '%h', '%%', '%abc', 'c.d', '%S', '%1', '%_', '%', '%é']
 
 
 def paths(ctx):
@@ -64,7 +64,7 @@ def is_spec(p):
     fc = '/' if p.startswith('/') else next((c for c in comps if c != ''), '')
     if not p.startswith('/') and comps and comps[0] == '.':
         fc = '.'
-    return len(p) > 1 and len(fc) == 2 and p.startswith('%') and not p.startswith('%%')
+    return len(p.encode()) > 1 and len(fc.encode()) == 2 and p.startswith('%') and not p.startswith('%%')   # lengths in bytes
 
 
 def oracle(ctx):
@@ -97,7 +97,7 @@ def oracle(ctx):
         if a != ('ok true' if is_spec(p) else 'ok false'):
             res.oracle_failures.append(dict(op='specifier\t' + hx(p), input=p, impl_output=a, oracle_expectation=f'specifier={is_spec(p)}'))
     # call sites on the real converters
-    rels = ['./x', 'x/y', '../up', './a/../b//c/', 'a/./b', '%h/x', '/abs/./p/..', 'plain', '.', '..', '.cache/app', '..data/x', '.hidden', './', '../', './/x', '...']
+    rels = ['./x', 'x/y', '../up', './a/../b//c/', 'a/./b', '%h/x', '%S/app/x.yaml', '%E/x', '%T/../x', '%1/x', '%%/x', '%hh/x', '/abs/./p/..', 'plain', '.', '..', '.cache/app', '..data/x', '.hidden', './', '../', './/x', '...']
     cases = []
     for _ in range(300 if ctx.thorough else 80):
         unitdir = rnd.choice(['/q', '/q/sub dir', '/etc/containers/systemd/users/1000'])
